@@ -377,6 +377,13 @@ theorem hagenbach_bischoff_homogeneousSTV (ae mand : Bool) (step : Option Int) :
   have : f = Gen.Quota.hagenbach_bischoff := by injection hf with h; exact h.symm
   rw [this]; exact hagenbach_bischoff_homogeneous k V n
 
+/-- no quota at all (`quota_function=None`: election by elimination only, instant run-off): vacuously homogeneous, so
+    `stvSelector_scale` / `stvDistributor_scale` cover it -/
+theorem noquota_homogeneousSTV (ae mand : Bool) (step : Option Int) :
+    HomogeneousSTV ⟨none, ae, mand, step⟩ := by
+  intro f hf
+  cases hf
+
 /-- **STV, Gregory transfers, Hare quota — the selector** (`TransferableVoteSelector(transferer='Gregory',
     quota_function='hare')`), any `accept_quota_equal` (so also the strict variant `accept_quota_equal=False`) /
     `mandatory_quota` / `eliminate_step`, and equally the Imperiali and Hagenbach-Bischoff quotas
